@@ -22,6 +22,7 @@
    [H] maps a stored content to the identifier of the content hash used in its record-type tag.
    Closest-peer and candidate lists are data (how they are computed is C11). *)
 From Coq Require Import List NArith Bool.
+From V Require Import gen.Consts.
 Import ListNotations.
 Open Scope N_scope.
 
@@ -309,12 +310,46 @@ Definition holds_ok (ns : list node) (obs : list (peer * list (key * content))) 
 (* one observed step: the op, the undelivered messages after it, what every node holds after it *)
 Definition obs_step := (op * list msg * list (peer * list (key * content)))%type.
 
+(* The envelope in which `on_replicate` abstracts ReplicationFetcher::add_keys exactly (bridge lemma
+   add_keys_idle_clean, C08): no advertised unheld entry is already in flight while another unheld
+   entry is advertised with it (the real fetcher then leaves the in-flight one QUEUED for the
+   advertising holder, which this model does not carry), and the parallel-fetch cap is not reached.
+   Outside it the correspondence stops comparing (the oracle of the property still judges the run). *)
+Definition unheld (n : node) (keys : list (key * rtype)) : list (key * rtype) :=
+  filter (fun x => match lookup (fst x) (held n) with Some _ => false | None => true end) keys.
+
+Definition list_outside_envelope (cap : N) (n : node) (holder : peer) (keys : list (key * rtype)) : bool :=
+  accepts_holder n holder &&
+  ((Nat.leb 2 (length (unheld n keys)) && existsb (fun x => kt_mem x (inflight n)) (unheld n keys))
+   || negb (fits cap n keys)).
+
+Definition outside_envelope (cap : N) (s : sys) (o : op) : bool :=
+  match o with
+  | ODeliver (Replicate _ to holder keys) | OAdvert to holder keys =>
+      match get_node to (nodes s) with
+      | Some n => list_outside_envelope cap n holder keys
+      | None => false
+      end
+  | _ => false
+  end.
+
+Definition CAP : N := Consts.fetcher_max_parallel.    (* MAX_PARALLEL_FETCH, re-read from the source *)
+
 Fixpoint agree_steps (H : content -> N) (s : sys) (ops : list obs_step) : bool :=
   match ops with
   | [] => true
   | (o, p, hs) :: r =>
+      if outside_envelope CAP s o then true else
       let s' := step H s o in
       in_pool o s && msgs_eqb (pool s') p && holds_ok (nodes s') hs && agree_steps H s' r
+  end.
+
+(* number of observed steps compared before the envelope was left (all of them if it never was) *)
+Fixpoint compared_steps (H : content -> N) (s : sys) (ops : list obs_step) (i : N) : N :=
+  match ops with
+  | [] => i
+  | (o, p, hs) :: r =>
+      if outside_envelope CAP s o then i else compared_steps H (step H s o) r (i + 1)
   end.
 
 (* index of the first observed step the model disagrees with (diagnostics) *)
@@ -322,6 +357,7 @@ Fixpoint first_bad (H : content -> N) (s : sys) (ops : list obs_step) (i : N) : 
   match ops with
   | [] => None
   | (o, p, hs) :: r =>
+      if outside_envelope CAP s o then None else
       let s' := step H s o in
       if in_pool o s && msgs_eqb (pool s') p && holds_ok (nodes s') hs
       then first_bad H s' r (i + 1) else Some i
